@@ -342,6 +342,7 @@ class StorageRunner:
         self.probe = probe
         self.patience = 6         # seconds a tpc_begin on a FREE lock may take before it counts as blocked
         self.begun = set()        # transactions whose begin returned (real observation)
+        self.voted = set()
         self.events = []          # ('acquired', t) / ('released', t) in real order, for the oracle
 
     def txn(self, t, new=False):
@@ -431,11 +432,17 @@ class StorageRunner:
                 r = 'ok'
             elif o == 'vote':
                 v = st.tpc_vote(self.txn(int(tk[1])))
+                self.voted.add(int(tk[1]))
                 r = 'voted [%s]' % ','.join(str(u64(x)) for x in (v or []))
                 extra = self._poll_pending()
             elif o == 'finish':
                 t = int(tk[1])
+                if t in self.begun and t not in self.voted:
+                    # tpc_finish without tpc_vote is a protocol violation FileStorage does not survive
+                    # (only the shrinker produces it); the model's finish = vote + finish
+                    st.tpc_vote(self.txn(t))
                 tid = st.tpc_finish(self.txn(t))
+                self.voted.discard(t)
                 r = 'ok %d' % u64(tid)
                 self.begun.discard(t)
                 self.txns.pop(t, None)
@@ -444,6 +451,7 @@ class StorageRunner:
                 t = int(tk[1])
                 st.tpc_abort(self.txn(t))
                 r = 'ok'
+                self.voted.discard(t)
                 if t in self.begun:
                     self.begun.discard(t)
                     self.events.append(('released', t))
